@@ -6,8 +6,13 @@ Tie (DESIGN.md 3/C19):
               files, directories that carry a graphql suffix) and `Path.suffix` over a name table
               vs `Ariadne.SchemaLoad` (ops `suffix`, `load`);
   * remote:   `schema.get_graphql_schema_from_url` driven through a transport-level httpx patch over the complete table
-              status class x body class + exceptions of the transport + unparseable URLs vs `Ariadne.Introspect.introspect`
-              + `Spec.BuildClientSchema.top` (op `introspect`);
+              status class x body class + exceptions of the transport (every exception class the installed httpx exports,
+              user-defined subclasses, foreign exceptions; each sent to the model as the MRO of its class + `str(exc)`;
+              60% of the random picks in the TransportError family, the region of the repaired finding C19-F2)
+              + unparseable URLs vs `Ariadne.Introspect.introspect` + `Spec.BuildClientSchema.top` (op `introspect`,
+              incl. the twins of `listedFailureExc` / `trigRequestExcUntyped`); oracle-only: the REAL transport on URLs it
+              refuses or cannot reach and against a one-shot loopback endpoint that misbehaves (closes, garbage, truncated
+              body, undecodable Content-Encoding = finding C19-F6);
   * settings: the real `main.client` (stopped by a sentinel at the first request / at the first file read) over random
               source configurations with `$ENV` headers vs `Ariadne.Introspect.chooseSource` (op `source`); the captured
               request (URL, headers, `verify`, the introspection query text) is compared too;
@@ -467,7 +472,7 @@ def body_table() -> List[Tuple[str, bytes, bool]]:
 
 
 # URLs that httpx itself refuses to parse (httpx.InvalidURL is raised inside httpx.post, before any transport)
-UNPARSEABLE_URLS = ["http://a:b/", "http://[::1", "http://\x00", "http://exa\nmple.com/", "http://h:99999999/", "http://[zz]/g"]
+UNPARSEABLE_URLS = ["http://a:b/", "http://[::1", "http://\x00", "http://exa\nmple.com/", "http://[zz]/g"]
 # URLs that the REAL transport refuses or cannot reach without any network access (region of the repaired finding C19-F2)
 UNREACHABLE_URLS = ["example.com/graphql", "ftp://example.com/graphql", "//example.com/graphql", "http://127.0.0.1:1/graphql",
                     "localhost:1/graphql", "ws://127.0.0.1:1/graphql", "/graphql", "graphql", "https://127.0.0.1:1/graphql",
@@ -2340,6 +2345,7 @@ def run(ctx: Ctx, st: Optional[LeanStatus]) -> Result:
 def search(ctx: Ctx) -> Result:
     """after a broken proof / correspondence: judge the real code with the big budgets"""
     res = Result()
+    check_real_transport(res)
     check_remote(ctx, None, res)
     check_sources(ctx, None, res, 1000)
     check_suffixes(ctx, None, res)
